@@ -660,6 +660,14 @@ func (f *fnState) specCall(x *spec.Call, c *specCtx) SV {
 	case "str":
 		b, lo, n := arg(0), arg(1), arg(2)
 		return SV{Typ: types.Typ[types.String], Sort: sStr, T: fmt.Sprintf("(strOf %s %s %s)", f.heapMapIn(c.env, "E$uint8", sInt), locOff(fmt.Sprintf("(s-loc %s)", b.T), lo.T), n.T)}
+	case "ghost":
+		// ghost("name", p): user-defined integer ghost state attached to the object p points to
+		nm, ok := x.Args[0].(*spec.StrLit)
+		if !ok || len(x.Args) != 2 {
+			f.fail("%s: ghost needs a name literal and an object", f.fn)
+		}
+		o := arg(1)
+		return intSV(fmt.Sprintf("(select %s (l-ref %s))", f.get(c.env, "G$u$"+nm.V, "(Array Int Int)").T, f.locTerm(o)))
 	case "memkey":
 		// memkey("E$string", "(Array Loc Str)"): the heap map with that cell key
 		k, ok := x.Args[0].(*spec.StrLit)
